@@ -282,6 +282,9 @@ def run_case(case, ctx):
       d2 = o.deriv(rr, 2)
       if max(abs(v), abs(d1), abs(d2)) > mp.mpf("1e150"):
         continue
+      if o.underflows(rr):
+        ctx.count("underflow_domain_points")   # an intermediate below ~1e-308 is flushed to zero by doubles
+        continue
       vs, m = o.vscale(rr), o.mag(rr)
       s1, s2 = o.dscale(rr, 1), o.dscale(rr, 2)
     except (R.RefDomainError, ZeroDivisionError, ValueError, OverflowError):
